@@ -257,6 +257,11 @@ def run(ctx):
     exe = vlib.harness_build(["c20"])["c20"]
     vlib.coq_make(["Conn/Peer.vo"])
     drv = vlib.ocaml_build("c20")
+    try:
+        vlib.coq_make(["Conn/PeerExamples.vo"])               # non-vacuity examples next to the theorems
+        ctx.extra["examples"] = "Conn/PeerExamples.v builds"
+    except vlib.BrokenTie as bt:
+        ctx.tie_broken("the non-vacuity examples Conn/PeerExamples.v no longer check", bt.detail)
 
     ns = have_namespace() and os.environ.get("VERIF_C20_NO_NS") != "1"
     ctx.extra["mount_namespace"] = ns
